@@ -338,6 +338,29 @@ def units(ctx, prog, only=None):
     CR = S['Credential']
     RU = {'scenario': 'credential_validation', 'cex': {'only': '[unit]'}}
 
+    # ---- extract_issuer / extract_issuer_from_jwt: the issuer DID is the *whole* issuer URL read as a DID (a DID URL built on a DID - with
+    # a fragment, query or path - is not a DID, and must not be reduced to one: "the method's DID equals ... the credential's issuer")
+    for nm in ('extract_issuer', 'extract_issuer_from_jwt'):
+        fx = prog.one(r'jwt_credential_validator_utils::<impl at [^>]*>::%s$' % nm)
+        xpaths, xex = A.paths(fx, same_file=True)
+
+        def r_iss(p, nm=nm):
+            if p.kind != 'return':
+                return 'panic ' + p.msg
+            if not p.is_ok():
+                return None
+            fs = [c_ for c_ in p.find_calls(r'FromStr>::from_str$') if p.took(c_, 'Ok')]
+            if len(fs) != 1 or strip(p.term(p.payload())) != ('field', fs[0].ret, 0, 'Ok'):
+                return 'the DID returned is not what D::from_str accepted'
+            a = fs[0].args[0]
+            bad = [x for x in apps(a, r'.') if not re.search(r'Url::as_str$|Issuer::url$|::as_str$|::url$|Deref|as_ref$', x[1])]
+            if bad or p.find_calls(r'DIDUrl::parse$|DIDUrl::did$|::did$|split|strip|find$'):
+                return 'the issuer DID is not parsed from the whole issuer URL text (%s)' % (bad[0][1][-50:] if bad else 'DID-URL reduction')
+            if not apps(a, r'Issuer::url$|::url$'):
+                return 'the text parsed is not the issuer URL'
+            return None
+        A.require('%s/the-whole-issuer-url-read-as-a-did' % nm, xpaths, r_iss, replay={'scenario': 'credential_validation', 'cex': {'only': '[issuer-url]'}})
+
     # ---- Credential::check_structure: base context *first*, base type present, at least one subject, no empty subject
     f = prog.one(r'credential::credential::<impl at [^>]*>::check_structure$')
     paths, ex = A.paths(f, unwind=2, allow_bound=True)
@@ -478,7 +501,7 @@ def main(ctx):
 
     def method_lookup():
         prog2, info2 = load(c04.CRATES, src_only=c04.SRC)
-        c04.run(ctx, prog2, only=r'^DIDUrlQuery::from<|^resolve_method/|^resolve_method_ref/')
+        c04.run(ctx, prog2, only=r'^DIDUrlQuery::|^resolve_method/|^resolve_method_ref/')
     guarded(ctx, 'method lookup in the issuer document', 'M', method_lookup)
     # "the credential returned is the one that was signed" and the issuance bound both read the issuance date: nbf, else iat (C07's
     # numeric-date obligation, re-used)
